@@ -214,6 +214,31 @@ def run(ctx):
                 ok = True
     ctx.ob("R10.4", "add_trivia_to_terminal:pending-before-leading", ok, "pending trivia is prepended: pending.extend(leading_trivia)", att.where())
 
+    # ---------------- R10.6 green caches of the parser are keyed by the exact source text
+    import re as _re
+    padt = F.adts.get(PARSER)
+    n_cache = 0
+    for name, ty in (padt["variants"][0]["fields"] if padt else []):
+        m = _re.match(r"^cairo_lang_utils::(unordered|ordered)_hash_map::\w+<(.+), ([\w:]+Green<[^>]*>)(, .*)?>$", ty)
+        if not m:
+            continue
+        n_cache += 1
+        key_ty = m.group(2)
+        text_key = key_ty in ("&'a str", "&str", "alloc::string::String", "smol_str::SmolStr", "cairo_lang_filesystem::ids::SmolStrId<'a>")
+        ctx.ob("R10.6", "cache:%s:key-is-text" % name, text_key,
+               "green cache `%s` is keyed by `%s` (%s)" % (name, key_ty, "the source text itself" if text_key else
+                                                              "NOT the text: two different texts can share a node"), "%s:%s" % (padt["file"], padt["line"]))
+        # the key used at the lookup is sliced out of the input by the node's span
+        for p, f in F.fns.items():
+            if not f.body or not p.startswith(PARSER):
+                continue
+            for c in f.calls():
+                if c.name() in ("entry", "get", "insert", "get_mut", "contains_key") and c.args and ("f:" + name) in op_prov(f, c.args[0], 6):
+                    toks = op_prov(f, c.args[1], 10) if len(c.args) > 1 else set()
+                    ctx.ob("R10.6", "cache:%s:lookup-key@%s" % (name, last_seg(p)), "c:take" in toks and "f:text" in toks,
+                           "the lookup key is the text of the span (TextSpan::take(self.text)): %s" % sorted(x for x in toks if x[0] in "cf")[:6], c.where())
+    ctx.floor("green caches of the parser", n_cache, 1)
+
     # ---------------- R10.5 width = sum of children
     n_nodes = n_ok = 0
     badw = []
